@@ -78,6 +78,16 @@ def directed_cases():
         case("account", 2, "SIMPLE", strategy="SUITE", direction="FORWARD"),
         # SUT that uses random: seed fixture in the written file
         case("rng_user", 0, "SIMPLE"),
+        # oracles on module-level state attached to void calls (the statement binds nothing once the unused target is dropped)
+        case("counter", 4, "SIMPLE", iters=6),
+        case("counter", 2, "SIMPLE", iters=6, direction="FORWARD"),
+        case("counter", 5, "SIMPLE", iters=6, direction="FORWARD"),
+        case("counter", 2, "MUTATION_ANALYSIS", iters=6),
+        case("counter", 3, "SIMPLE", strategy="COMBINED", iters=6),
+        # instances of classes nested in classes (isinstance / type-name assertions with dotted class names)
+        case("nested", 0, "SIMPLE"),
+        case("nested", 1, "SIMPLE", no_xfail=True, black=False),
+        case("nested", 2, "MUTATION_ANALYSIS", iters=6),
         # fault injection: every assertion-filtering execution times out (what machine load does); the written file must
         # still pass, i.e. no unverified state-dependent assertion (class counters, ids) may be exported
         case("account", 0, "SIMPLE", fault="filter_execution_times_out"),
@@ -90,7 +100,7 @@ def random_cases(seed, n, part, want_assertions=False):
     from vlib import sut_corpus
 
     rng = random.Random(seed * 1_000_003 + part * 7919 + 18)
-    suts = list(sut_corpus.ALL) * 3 + list(sut_corpus.RANDOM_USING)
+    suts = list(sut_corpus.ALL) * 3 + list(sut_corpus.RANDOM_USING) + list(sut_corpus.GENFILES_EXTRA) * 4
     out = []
     for _ in range(n):
         ag = rng.choices(["SIMPLE", "MUTATION_ANALYSIS", "NONE"], [50, 25, 0 if want_assertions else 25])[0]
@@ -157,7 +167,7 @@ def run_case(ctx, c, idx, monitors=None, timeout=400):
     brk = ",".join(x for x in (os.environ.get("VERIF_BREAK", ""), c.get("fault") or "") if x)
     cache = os.environ.get("VERIF_GENFILES_CACHE")
     work = Path(ctx.scratch) / f"case{idx}"
-    proj = sut_corpus.copy_to(work / "proj")
+    proj = sut_corpus.copy_to(work / "proj", names=sut_corpus.ALL + sut_corpus.RANDOM_USING + sut_corpus.GENFILES_EXTRA)
     out = work / "out"
     tag = f"{c['sut']}/seed{c['seed']}/{c['algo']}/{c['ag']}"
     res = None
